@@ -155,18 +155,23 @@ Proof. unfold guards_ok, guards_stmt. destruct (find_ctor (kind_name k)) as [c|]
 (* once the model's [guarded] is corrected, [C07_guards_full] is  guards_full_of_check (by vm_compute) *)
 Lemma guards_full_of_check : forallb guards_ok all_kinds = true -> forall k, guards_stmt k.
 Proof. intros H k. apply guards_ok_spec. exact (forall_kinds _ H k). Qed.
-Definition guards_check_except (k0 : ckind) : bool := forallb (fun k => ckind_eqb k k0 || guards_ok k) all_kinds.
 Lemma ckind_eqb_spec a b : ckind_eqb a b = true <-> a = b.
 Proof. destruct a, b; simpl; split; congruence. Qed.
-Lemma guards_partial_thm : forall k, k <> KPerI -> guards_stmt k.
-Proof. assert (H : guards_check_except KPerI = true) by (vm_compute; reflexivity).
-  intros k Hk. pose proof (forall_kinds _ H k) as Hk'. cbv beta in Hk'. apply orb_true_iff in Hk'.
-  destruct Hk' as [E|E]; [apply ckind_eqb_spec in E; contradiction|apply guards_ok_spec; exact E]. Qed.
-(* the model says periodic_current_source guards G and w like its voltage twin; the Python constructor has no guard *)
-Lemma guards_KPerI_thm : exists c, find_ctor (kind_name KPerI) = Some c /\ c_guards c = [] /\ guarded KPerI = [lbl "G"; lbl "w"].
-Proof. vm_compute. eexists. split; [reflexivity|]. split; reflexivity. Qed.
-Lemma guards_full_fails : ~ (forall k, guards_stmt k).
-Proof. intros H. specialize (H KPerI). apply guards_ok_spec in H. vm_compute in H. discriminate. Qed.
+(* every constructor guards exactly the parameters the model says (periodic_current_source included since fix 3d..: before
+   it the Python constructor had no guard at all and this statement was refuted) *)
+Lemma guards_full_thm : forall k, guards_stmt k.
+Proof. apply guards_full_of_check. vm_compute. reflexivity. Qed.
+(* the two periodic constructors look their waveform up (UnknownWavetype at construction), no other constructor does *)
+Definition wave_ok (k : ckind) : bool :=
+  match find_ctor (kind_name k) with
+  | Some c => Bool.eqb (c_checks_wavetype c) (ckind_eqb k KPerV || ckind_eqb k KPerI)
+  | None => false end.
+Lemma wave_checked_thm : forall k, exists c, find_ctor (kind_name k) = Some c /\
+  (c_checks_wavetype c = true <-> (k = KPerV \/ k = KPerI)).
+Proof. assert (H : forallb wave_ok all_kinds = true) by (vm_compute; reflexivity).
+  intros k. pose proof (forall_kinds _ H k) as Hk. unfold wave_ok in Hk.
+  destruct (find_ctor (kind_name k)) as [c|]; [|discriminate]. exists c. split; [reflexivity|].
+  apply Bool.eqb_prop in Hk. rewrite Hk, orb_true_iff, !ckind_eqb_spec. reflexivity. Qed.
 
 (* ====================================================================================================== *)
 (* B0. the element law of a branch, read in the vocabulary of its constructor (generic field)              *)
